@@ -32,9 +32,10 @@ func hsConfigs(tier string) []hs.Config {
 		add(hs.Config{Comp: comps[0], Enc: encs[0], Schemes: schemes[3], TLSCapable: true, AuthSource: "tape", Tape: []string{"authority"}, Register: "error"})
 		add(hs.Config{Comp: comps[0], Enc: encs[0], Schemes: schemes[0], TLSCapable: true, AuthSource: "tape", Tape: []string{"member+cut"}, Register: "echo"})
 		add(hs.Config{Comp: comps[0], Enc: encs[1], Schemes: schemes[0], TLSCapable: true, AuthSource: "tape", Tape: []string{"member"}, Register: "echo", TLSVia: "getconfig"})
+		add(hs.Config{Comp: comps[0], Enc: encs[0], Schemes: schemes[0], TLSCapable: true, AuthSource: "tape", Tape: []string{"unknown+cut"}, Register: "echo"})
 		return out
 	}
-	tapes := [][]string{{"member"}, {"roundtrip", "member"}, {"unknown"}, {"roundtrip", "roundtrip-norole", "authority"}, {"norole"}, {"error"}, {"roundtrip", "unknown"}, {"member+cut"}, {"roundtrip", "member+cut"}}
+	tapes := [][]string{{"member"}, {"roundtrip", "member"}, {"unknown"}, {"roundtrip", "roundtrip-norole", "authority"}, {"norole"}, {"error"}, {"roundtrip", "unknown"}, {"member+cut"}, {"roundtrip", "member+cut"}, {"unknown+cut"}}
 	n := 0
 	for ei, e := range encs {
 		for ci, c := range comps {
